@@ -300,6 +300,7 @@ bool comp_reset_comp_data(zckCtx *zck) {
     zck->comp.data_size = 0;
     zck->comp.data_loc = 0;
     zck->comp.data_idx = NULL;
+    zck->comp.data_eof = false;
     return true;
 }
 
